@@ -35,6 +35,7 @@ from sexp import Sym, dumps
 import gen_oal_text as G
 
 PROP = 'C08'
+PREBUILD_EXCEPTION_LIMIT = 0.2  # the same for prebuilding (arrays, enumerators and port signals are not prebuildable here)
 RUN_EXCEPTION_LIMIT = 0.15     # largest tolerated share of generated bodies that fail to run under the base spelling
 RULE = ('programs x 5 spellings (lower, UPPER, Capitalised, 2 random per-letter mixes incl. blank/tab inside END '
         'tokens); parse-kind programs cover most grammar productions with random layout, exec-kind programs run on a '
@@ -136,6 +137,11 @@ def generate(ctx):
     # are generated to RUN: a body that ends in an exception under the lower-case spelling is compared by exception
     # class only, so effects after the failing statement are not observed - bound their share (a stub of the harness
     # that no longer fits the interpreter's calling convention once made every domain-function call raise)
+    n_pre = ctx.stats.get('prebuild_ok', 0) + ctx.stats.get('prebuild_exception', 0)
+    if n_pre and ctx.stats.get('prebuild_exception', 0) > max(3, PREBUILD_EXCEPTION_LIMIT * n_pre):
+        raise common.HarnessError('%d of %d generated bodies cannot be prebuilt under the lower-case spelling (more '
+                                  'than %.0f %%): the prebuilder family is not exercising what it is meant to'
+                                  % (ctx.stats.get('prebuild_exception', 0), n_pre, 100 * PREBUILD_EXCEPTION_LIMIT))
     n_run = ctx.stats.get('run_ok', 0) + ctx.stats.get('run_exception', 0)
     if n_run and ctx.stats.get('run_exception', 0) > max(3, RUN_EXCEPTION_LIMIT * n_run):
         raise common.HarnessError('%d of %d generated bodies end in an exception under the lower-case spelling (more '
@@ -221,10 +227,24 @@ class _Log(object):
         a.N = a.N + v
 
 
+class _Color(object):
+    Red = 1
+    Green = 2
+
+
 def _run(text, n, home='f'):
     m = _m['exec_loader'].build_metamodel()
     funcs = G.exec_functions(m)
     funcs['LOG'] = _Log(m)
+    funcs['Color'] = _Color
+    a_cls = type(m.select_any('A'))
+
+    def count():
+        a1 = m.select_any('A', lambda sel: sel.Id == 1)
+        a1.N = a1.N + 100                       # class operation with a side effect
+        return len(m.select_many('A'))
+    a_cls.Count = staticmethod(count)
+    funcs['A'] = a_cls
     # the interpreter resolves ::f() / LOG::f() through domain.find_symbol(name[, kind or kinds])
     m.find_symbol = lambda name, kind=None: funcs[name]
     try:
